@@ -116,6 +116,25 @@ CHECKS = {
         text='Exploration over the stated fragment x periods {1, 1/2, 2, 1/4} x step signals.',
         note='Trusted base: bound scaling (samples -> seconds) in props/c19.py; harness horizon.',
         ref='DESIGN.md §7 C19'),
+    'C08': dict(
+        technique='notation-metamorphic monitor: the same durations spelled in other units / default unit / period '
+                  'unit / declared constants through the real monitors (offline, online, pastified, dense) vs the '
+                  'canonical notation; exception-class monitor for non-multiple bounds',
+        text='Exploration over generated formulas x 5 periods x 4 default units x 7 spellings; non-multiple bounds '
+             'must raise RTAMTException. Two open findings of pastify() (next counted in units, non-multiples hidden) '
+             'are reported as KNOWN-FINDING by precondition.',
+        note='Trusted base: duration printer props/c08.py:dur_in (exact decimal literals), canonical run = bounds in '
+             'samples with period 1 s.',
+        ref='DESIGN.md §7 C08'),
+    'C15': dict(
+        technique='spelling-metamorphic monitor: canonical text vs alias / separator / parenthesisation variants, LTL '
+                  'front end and the unless expansion through the real parser+monitor; exhaustive enumeration of '
+                  'adjacent operator pairs for the precedence part',
+        text='Exploration over generated formulas x 9 variant kinds + every ordered pair of operators adjacent in 4 '
+             'shapes (1008 combinations, enumerated in every run).',
+        note='Trusted base: precedence table lang.LEVEL transcribed from StlParser.g4 and the minimal-parentheses '
+             'printer lang.to_variant.',
+        ref='DESIGN.md §7 C15'),
 }
 
 NOT_APPLICABLE = {}
